@@ -32,10 +32,11 @@ import numpy as np
 from . import common as C
 from . import meshgen as MG
 
+LEAN_MODULES = ['Femio.Props.C20Pipeline']
 THEOREMS = [
-    'C20_shrink_inv', 'C20_merge_step_inv', 'C20_remove_edge_inv', 'C20_remove_vertices_2_inv', 'C20_rv2_assert_never_fires',
-    'C20_merge_vertex_inv', 'C20_reindex_inv', 'C20_pipeline_invariant', 'C20_pipeline_nodes_exact',
-    'C20_pipeline_flux',
+    'C20_shrink_inv', 'C20_merge_step_inv', 'C20_remove_edge_inv', 'C20_remove_vertices_2_inv', 'C20_rv2_cell',
+    'C20_merge_vertex_inv', 'C20_reindex_inv', 'C20_pipeline_invariant', 'C20_pipeline_output', 'C20_pipeline_conv',
+    'C20_cellFlux_eq_polyFan6', 'C20_pipeline_flux', 'C20_pipeline_output_flux', 'C20_step_flux',
 ]
 
 
@@ -163,6 +164,14 @@ def steps_case(ctx, m, params, label='steps'):
     node_conv = np.arange(len(node_pos), dtype=np.int32)
     ops = []                                    # encoded model operations of the whole run
     n_ops = 0
+    good = None
+    if drv is not None:
+        # hypothesis `Good` of the pipeline theorems on the input of compress(): closed cells, simple faces of >= 3 nodes,
+        # every node a row of node_conv (= identity)
+        good = h.ask(ctx, f'c20.good {C.enc_list(raw, h.enc_flat)} {C.enc_list(range(len(node_conv)))}').nat() == 1
+        ctx.count('steps:input-satisfies-Good' if good else 'steps:input-outside-Good(hypothesis of the pipeline theorems fails)')
+    coplanar_merges = True                      # hypothesis `FluxRun`: faces merged along an edge only when coplanar
+    any_vertex_merge = False
 
     def model_state(tag, op_tokens, n_new, want_cells, exact, state_cells, state_conv=None):
         """run the operations `op_tokens` on `state_cells` in the model and compare with `want_cells`"""
@@ -216,6 +225,12 @@ def steps_case(ctx, m, params, label='steps'):
                     # an edge occurring twice in one cell is listed twice by the code
                     ps = None
                 applied = all(c[3] for c in calls)
+                if applied:
+                    for (_, _, before, _, after) in calls:
+                        fs = h.parse_flat(before)
+                        two = [f for f in fs if any((f[i - 1], f[i]) in ((a, b), (b, a)) for i in range(len(f)))]
+                        if two and not coplanar_face([v for f in two for v in f], pos0):
+                            coplanar_merges = False
                 for (_, _, before, ok, after) in calls[:2]:
                     if drv is not None:
                         t = h.ask(ctx, f'c20.remove_one_edge {a} {b} {h.enc_flat(before)}')
@@ -284,6 +299,7 @@ def steps_case(ctx, m, params, label='steps'):
                     [int(v) for v in conv_before])
         if pairs:
             ctx.count('steps:merge_vertices:merges')
+            any_vertex_merge = True
         if ops is not None:
             ops += stage_ops
         n_ops += len(stage_ops)
@@ -299,6 +315,20 @@ def steps_case(ctx, m, params, label='steps'):
             ctx.count('steps:staged-replay-equal-up-to-face-order')
     else:
         ctx.count('steps:staged-replay-identical')
+    # ---- what the pipeline theorems predict for this run (hypotheses evaluated exactly on the traced run)
+    if good:
+        bad = next((h.cell_ok(c) for c in real_final if h.cell_ok(c)), None)
+        if bad:
+            ctx.disagree('C20_pipeline_invariant predicts closed cells with simple faces of >= 3 nodes', case, bad, 'Inv')
+        ctx.count('steps:theorem-invariant-checked')
+        if ops is not None and planar_all and coplanar_merges and not any_vertex_merge:
+            f0, f1 = total_flux([h.parse_flat(c) for c in raw], pos0), total_flux(real_final, pos0)
+            if f0 != f1:
+                ctx.disagree('C20_pipeline_flux predicts an unchanged total fan volume (planar faces, coplanar merges, no '
+                             'vertex merged)', case, str(f0), str(f1))
+            ctx.count('steps:theorem-flux-checked' + (':cells-merged' if len(real_final) < len(raw) else ''))
+        elif ops is not None and not any_vertex_merge:
+            ctx.count('steps:flux-hypothesis-fails(' + ('non-planar input face' if not planar_all else 'non-coplanar edge merge') + ')')
     # ---- the whole run in the model
     if ops is not None and drv is not None:
         t = h.ask(ctx, f'c20.run {C.enc_list(raw, h.enc_flat)} {C.enc_list(range(len(node_conv)))} {len(ops)} ' + ' '.join(ops))
